@@ -1,8 +1,14 @@
 #!/bin/bash
-# Offline setup: make sure hypothesis is importable next to the repository's own packages.
+# Offline setup: make sure hypothesis is importable next to the repository's own packages, and put atheris (the
+# coverage-guided secondary engine, optional) under /verif/.deps.
 set -e
+cd "$(dirname "$0")"
 PY=${VERIF_PYTHON:-/venv/bin/python}
 if ! "$PY" -c "import hypothesis" 2>/dev/null; then
   /venv/bin/pip install --no-index --find-links /opt/veriftools/wheels hypothesis
+fi
+if [ ! -d .deps/atheris ]; then
+  /venv/bin/pip install -q --no-index --find-links /opt/veriftools/wheels --target .deps atheris \
+    || echo "atheris could not be installed: the fuzz engine will be skipped (recorded in the evidence)"
 fi
 "$PY" -c "import hypothesis, torch, numpy, sympy; print('setup ok: hypothesis', hypothesis.__version__, 'torch', torch.__version__)"
